@@ -3,6 +3,7 @@ CONSTANTS
   Stream <- MCStream
   KeepPartial <- MCKeep
   GuardShort <- MCGuard
+  TextBuffer <- MCText
   MaxSegs <- MCMaxSegs
 INVARIANT LevelA
 INVARIANT Replay
